@@ -144,7 +144,13 @@ func (e *bx) norm() *bx {
 		if a.render() > b.render() {
 			a, b = b, a
 		}
-		return &bx{op: e.op, w: e.w, signed: e.signed, a: a, b: b}
+		res := &bx{op: e.op, w: e.w, signed: e.signed, a: a, b: b}
+		if e.op == "or" {
+			if m := mergeByteLoads(res); m != nil {
+				return m
+			}
+		}
+		return res
 	case "shr", "shl", "len", "f64bits", "f64from", "eq", "ne", "bool", "zext", "sext":
 		c := *e
 		c.a = e.a.norm()
@@ -485,6 +491,15 @@ func (c *lctx) pos(v ssa.Value, sym func(v ssa.Value) (lpos, bool)) lpos {
 			case "copy":
 				// bytes copied = len(src) provided the destination has room (documented precondition of the in-place writers)
 				return lpos{syms: []*bx{(&bx{op: "len", w: 64, signed: true, a: c.expr(com.Args[1])}).norm()}}
+			}
+		}
+	}
+	if call, ok := v.(*ssa.Call); ok && c.layout != nil {
+		// the byte count a sibling in-place writer reports
+		if cal := call.Common().StaticCallee(); isBinaryProtocolMethod(cal) && strings.HasPrefix(cal.Name(), "Write") && cal != c.fn {
+			sub := c.layout.inplaceWriter(cal)
+			if sub.bad == "" {
+				return sub.total.subst(orderedArgs(c, cal, call.Common().Args, true))
 			}
 		}
 	}
@@ -1550,4 +1565,170 @@ func lenParamOf(P *Program, fn *ssa.Function) (int, bool) {
 		}
 	}
 	return 0, false
+}
+
+// inplaceWriterOn summarises an in-place writer like inplaceWriter, but only over
+// the blocks accepted by keep and with the value parameters named explicitly
+// (used for functions that have an alternative path the summary must not mix in).
+func (L *layouts) inplaceWriterOn(fn *ssa.Function, buf *ssa.Parameter, args map[*ssa.Parameter]*bx, keep func(*ssa.BasicBlock) bool) *wsum {
+	s := &wsum{}
+	if len(fn.Blocks) == 0 {
+		s.bad = "no body"
+		return s
+	}
+	c := &lctx{P: L.P, fn: fn, args: args, layout: L}
+	tmp := &wsum{}
+	L.collectStores(c, tmp, func(root ssa.Value) (lpos, bool) {
+		if root == ssa.Value(buf) {
+			return lpos{}, true
+		}
+		return lpos{}, false
+	}, nil)
+	_ = tmp
+	// collectStores has no block filter: redo it here with the filter applied
+	s.units = nil
+	s.bad = tmp.bad
+	filtered := &wsum{}
+	L.collectStoresKeep(c, filtered, buf, keep)
+	s.units = filtered.units
+	if filtered.bad != "" {
+		s.bad = filtered.bad
+	}
+	first := true
+	for _, r := range returnsOf(fn) {
+		if !keep(r.Block()) {
+			continue
+		}
+		t := c.pos(r.Results[0], nil)
+		if first {
+			s.total = t
+			first = false
+		} else if t.String() != s.total.String() {
+			s.bad = "returns differ: " + s.total.String() + " / " + t.String()
+		}
+	}
+	if first {
+		s.bad = "no return on the selected path"
+	}
+	return s
+}
+
+func (L *layouts) collectStoresKeep(c *lctx, s *wsum, buf *ssa.Parameter, keep func(*ssa.BasicBlock) bool) {
+	all := &wsum{}
+	// run the ordinary collection on a view of the function restricted to kept blocks
+	fn := c.fn
+	for _, b := range fn.Blocks {
+		if !keep(b) {
+			continue
+		}
+		for _, in := range b.Instrs {
+			switch x := in.(type) {
+			case *ssa.Store:
+				ia, ok := x.Addr.(*ssa.IndexAddr)
+				if !ok {
+					continue
+				}
+				root, off, _ := c.sliceAt(ia.X, nil)
+				if root != ssa.Value(buf) {
+					continue
+				}
+				all.units = append(all.units, wunit{pos: off.add(c.pos(ia.Index, nil)), e: c.expr(x.Val)})
+			case *ssa.Call:
+				com := x.Common()
+				if bi, ok := com.Value.(*ssa.Builtin); ok && bi.Name() == "copy" {
+					root, off, _ := c.sliceAt(com.Args[0], nil)
+					if root == ssa.Value(buf) {
+						all.units = append(all.units, wunit{pos: off, payload: true, e: c.expr(com.Args[1])})
+					}
+					continue
+				}
+				cal := com.StaticCallee()
+				if n := isBigEndianPut(cal); n > 0 {
+					root, off, _ := c.sliceAt(com.Args[1], nil)
+					if root == ssa.Value(buf) {
+						e := c.expr(com.Args[2])
+						for k := 0; k < n; k++ {
+							all.units = append(all.units, wunit{pos: off.addC(int64(k)), e: e, lo: 8 * (n - 1 - k)})
+						}
+					}
+					continue
+				}
+				if isBinaryProtocolMethod(cal) && strings.HasPrefix(cal.Name(), "Write") && len(com.Args) >= 2 && cal != fn {
+					root, off, _ := c.sliceAt(com.Args[1], nil)
+					if root == ssa.Value(buf) {
+						sub := L.inplaceWriter(cal)
+						if sub.bad != "" {
+							all.bad = cal.Name() + ": " + sub.bad
+						}
+						all.units = append(all.units, sub.substShift(orderedArgs(c, cal, com.Args, true), off)...)
+					}
+				}
+			}
+		}
+	}
+	s.units = all.units
+	s.bad = all.bad
+}
+
+// mergeByteLoads recognises a big-endian word assembled by hand,
+// b[p]<<8(n-1) | … | b[p+n-1], and returns the single load be<n>@p.
+func mergeByteLoads(e *bx) *bx {
+	type part struct {
+		be    *bx
+		shift int
+	}
+	var parts []part
+	ok := true
+	var flat func(x *bx)
+	flat = func(x *bx) {
+		if !ok {
+			return
+		}
+		if x.op == "or" {
+			flat(x.a)
+			flat(x.b)
+			return
+		}
+		sh := 0
+		if x.op == "shl" {
+			sh = int(x.k)
+			x = x.a
+		}
+		for x.op == "zext" {
+			x = x.a
+		}
+		if x.op != "be" || x.p == nil || x.p.bad != "" {
+			ok = false
+			return
+		}
+		parts = append(parts, part{x, sh})
+	}
+	flat(e)
+	if !ok || len(parts) < 2 {
+		return nil
+	}
+	sort.Slice(parts, func(i, j int) bool { return parts[i].shift > parts[j].shift })
+	total := 0
+	for _, p := range parts {
+		total += int(p.be.k)
+	}
+	if total > 8 || total*8 > e.w {
+		return nil
+	}
+	rem := total
+	pos := *parts[0].be.p
+	for _, p := range parts {
+		rem -= int(p.be.k)
+		if p.shift != 8*rem || p.be.p.String() != pos.String() {
+			return nil
+		}
+		pos = pos.addC(int64(p.be.k))
+	}
+	p0 := *parts[0].be.p
+	m := &bx{op: "be", k: uint64(total), w: 8 * total, p: &p0}
+	if e.w > 8*total {
+		return &bx{op: "zext", w: e.w, signed: e.signed, a: m}
+	}
+	m.signed = e.signed
+	return m
 }
